@@ -248,6 +248,24 @@ func runC20(c *h.Ctx, idx int, events bool) {
 	for i := 0; i < r.Intn(3); i++ {
 		exc = append(exc, genPattern(r, tree, events))
 	}
+	if len(tree.files) > 0 && (r.Chance(25) || idx%7 == 3) {
+		// a file included by its plain name (no wildcard) and excluded by a pattern: the exclusion wins
+		f := tree.files[r.Intn(len(tree.files))]
+		inc = append(inc, f)
+		base := f[strings.LastIndexByte(f, '/')+1:]
+		switch r.Intn(3) {
+		case 0:
+			exc = append(exc, "**/"+base)
+		case 1:
+			exc = append(exc, f[:len(f)-len(base)]+"*")
+		default:
+			if j := strings.LastIndexByte(base, '.'); j > 0 {
+				exc = append(exc, "**/*"+base[j:])
+			} else {
+				exc = append(exc, f)
+			}
+		}
+	}
 	sel := tree.selected(inc, exc, false)
 	if events && len(sel) == 0 {
 		// make sure there is something to operate on
